@@ -129,4 +129,18 @@ def crack (c1 r1 s1 c2 r2 s2 : Int) : Except Err (Int × Int) :=
       | none => .error .value
       | some ri => .ok ((s2 * k - c2) * ri % o.n, k)
 
+/-! ## glue of the public entry points on btclib's own curves (`Btc.EC.Curve`) -/
+
+/-- `_is_x_coordinate_var` (Python arm): `0 ≤ x < p` and the Legendre symbol of `y²(x)` is not −1
+    (Euler's criterion with the shared `modPow`) -/
+def isXCoord (c : EC.Curve) (x : Int) : Bool :=
+  decide (0 ≤ x ∧ x < c.p) &&
+    (EC.modPow (EC.y2 c.toCurveGroup x) ((c.p.toNat - 1) / 2) c.p != c.p - 1)
+
+/-- a public key given as a tuple: `point_from_pub_key` refuses what is not on the curve or has y = 0 -/
+def pubKeyOk (c : EC.Curve) (Q : EC.Point) : Bool :=
+  match EC.isOnCurve c.toCurveGroup Q with
+  | some true => Q.2 != 0
+  | _ => false
+
 end Btc.Ecdsa
